@@ -9,6 +9,7 @@
 // TEXT with quotes / delimiters / control / non-ASCII characters, nested and long arrays, NULLs) in 1..4 columns and 0..3
 // rows per table, several tables per printer (an empty table first), the three formats, interactive and single-result mode;
 // plus the same values through a real query.
+// Also: intervals from 1 second to 1000 hours in the three formats (hours are not wrapped at a day).
 include!("verif_grid_common.rs");
 include!("verif_grid_qcommon.rs");
 use serde_json::{json, Value as J};
@@ -119,6 +120,19 @@ fn verif_grid() {
             });
         }
     } }
+    // intervals and timestamps are printed as their text form: hours:minutes:seconds.milliseconds with the hours not wrapped at a day
+    for (i, (h, m, sec, ms)) in [(0i64, 0i64, 1i64, 0i64), (1, 2, 3, 4), (23, 59, 59, 999), (24, 0, 0, 0), (49, 30, 15, 0), (1000, 0, 1, 500)].iter().enumerate() {
+        let total_ms = ((h * 60 + m) * 60 + sec) * 1000 + ms;
+        let text = format!("{:02}:{:02}:{:02}.{:03}", h, m, sec, ms);
+        g.case(&format!("interval-text-{}", i), move || {
+            let v = Value::Interval(chrono::Duration::milliseconds(total_ms));
+            let json = print_tables(OutputFormat::Json, true, &["d".to_owned()], &[vec![vec![v.clone()]]]);
+            let txt = print_tables(OutputFormat::Text, true, &["d".to_owned()], &[vec![vec![v.clone()]]]);
+            let csv = print_tables(OutputFormat::CSV(";".to_owned()), true, &["d".to_owned()], &[vec![vec![v]]]);
+            if json == vec![format!("{{\"d\":\"{}\"}}", text)] && txt == vec![format!("d: {}", text)] && csv == vec!["d".to_owned(), text.clone()] { Ok(()) }
+            else { Err(format!("an interval of {} ms ({}) printed JSON {:?}, text {:?}, CSV {:?}", total_ms, text, json, txt, csv)) }
+        });
+    }
     // a lone `input` column prints just the line
     g.case("lone-input", || {
         let printed = print_tables(OutputFormat::Text, true, &["input".to_owned()], &[vec![vec![Value::String("GET /index.html 200".to_owned())]]]);
